@@ -527,4 +527,311 @@ theorem loop_sim {par : Nat → Sess} {P : Nat → Nat → Nat → Prop} (hp : P
         rw [fire_idle _ _ (by intro d' m' r' hh; cases hh; simp only []; omega)]
         exact ⟨hi, hr, hnd⟩
 
+/-! ### one I/O step = one `tick` -/
+
+theorem rel_length {mx : Nat → Nat} {l : L} {ts : TS} (hr : Rel mx l ts) : ts.pend.length = l.q.nodes.length := by
+  have := congrArg List.length hr.pend
+  simpa [absP_length] using this
+
+theorem tick_sim {par : Nat → Sess} {P : Nat → Nat → Nat → Prop} (hp : ParOk par) (l : L) (ts : TS)
+    (hi : Inv par P l) (hr : Rel (mxOf par) l ts) :
+    Inv par P (dueLoop (dueFuel l) l) ∧ Rel (mxOf par) (dueLoop (dueFuel l) l) (Timer.step ts (.tick l.now)) ∧
+    NothingDue (dueLoop (dueFuel l) l) := by
+  have hlen := rel_length hr
+  have h1 : dc l.now ts.pend ≤ dueFuel l := by
+    have := dc_le_length l.now ts.pend
+    unfold dueFuel; omega
+  have h2 : dc l.now ts.pend ≤ tickFuel ts := Nat.le_trans (dc_le_length _ _) (length_le_tickFuel ts)
+  simp only [Timer.step, hr.now, if_true]
+  exact loop_sim hp _ _ l { ts with now := l.now } hi ⟨Nat.le_refl _, hr.pend, hr.outs⟩ rfl h1 h2
+
+/-- while nothing is due a tick only moves S's clock -/
+theorem tick_idle {mx : Nat → Nat} {l : L} {ts : TS} (hr : Rel mx l ts) (hnd : NothingDue l) :
+    Timer.step ts (.tick l.now) = { ts with now := l.now } := by
+  simp only [Timer.step, hr.now, if_true]
+  apply fire_idle
+  intro d m r hpd
+  have hp := hr.pend
+  simp only [] at hpd
+  rw [hpd] at hp
+  cases hn : l.q.nodes with
+  | nil => rw [hn] at hp; simp [absP] at hp
+  | cons h rr =>
+    rw [hn] at hp
+    simp only [List.map_cons, absP, List.cons.injEq] at hp
+    have := (er_eq_toP hp.1).1
+    have := (nothingDue_iff l).1 hnd h rr hn
+    simp only []
+    omega
+
+theorem premove_none (l : List (Nat × PMsg)) (s mid : Nat) (h : (premove l s mid).1 = none) :
+    (premove l s mid).2 = l := by
+  induction l with
+  | nil => rfl
+  | cons x r ih =>
+    by_cases hk : x.2.sess = s ∧ x.2.mid = mid
+    · simp [premove, hk] at h
+    · rcases hr : premove r s mid with ⟨res, r'⟩
+      rw [hr] at ih
+      simp only [premove, hk, if_false, hr] at h ⊢
+      simp only [] at ih
+      rw [ih h]
+
+/-- `coap_remove_from_queue` on M = `premove` on S -/
+theorem remove_sim {par : Nat → Sess} {P : Nat → Nat → Nat → Prop} (l : L) (ts : TS) (s mid : Nat)
+    (hi : Inv par P l) (hr : Rel (mxOf par) l ts) :
+    (premove ts.pend s mid).2.map er = absP (mxOf par) l.q.base (removeNode l.q.nodes s mid).2 ∧
+    ((removeNode l.q.nodes s mid).1 = none ↔ (premove ts.pend s mid).1 = none) ∧
+    (∀ x ∈ (removeNode l.q.nodes s mid).2, NodeOk par P x) ∧
+    (∀ n, (removeNode l.q.nodes s mid).1 = some n → NodeOk par P n ∧ n.sess = s ∧ n.mid = mid) := by
+  have h1 := absP_removeNode (mxOf par) l.q.base l.q.nodes s mid
+  have h2 := premove_er ts.pend s mid
+  have h3 := all_removeNode (nodeOk_tfree par P) l.q.nodes s mid hi.nodes
+  rw [hr.pend] at h2
+  refine ⟨by rw [h2.1, h1.1], ?_, h3.1, fun n hn => ⟨h3.2 n hn, removeNode_key _ _ _ _ hn⟩⟩
+  have h4 := h2.2
+  rw [← h1.2] at h4
+  constructor
+  · intro h; rw [h] at h4
+    cases hq : (premove ts.pend s mid).1 with
+    | none => rfl
+    | some x => rw [hq] at h4; simp at h4
+  · intro h; rw [h] at h4
+    cases hq : (removeNode l.q.nodes s mid).1 with
+    | none => rfl
+    | some x => rw [hq] at h4; simp at h4
+
+/-! ### the S events an M event stands for, and the scope of the simulation -/
+
+/-- the S events an M event stands for: an I/O step is a `tick` at the current time; `coap_send` is a `send` at the
+current time with the `T` that `coap_calc_timeout` draws; an arriving ACK / RST is `ack` / `rst` followed by the
+`tick` of the I/O step that `coap_io_do_epoll` ends with; moving the clock alone is not seen by S. -/
+def tr (l : L) : Ev → List TEv
+  | .setNow _ => []
+  | .prepare => [.tick l.now]
+  | .submit s _ mid r =>
+    [.tick l.now, .send s mid (calcTimeout (l.getS s).atI (l.getS s).atF (l.getS s).arfI (l.getS s).arfF r)
+      (l.getS s).maxRtx]
+  | .rxAck s mid => [.ack s mid, .tick l.now]
+  | .rxRst s mid => [.tick l.now, .rst s mid, .tick l.now]
+  | _ => []
+
+def trRun (l : L) : List Ev → List TEv
+  | [] => []
+  | ev :: evs => tr l ev ++ trRun (Msg.step l ev) evs
+
+/-- the scope of the simulation: the clock does not run backward; Confirmable messages are submitted while the
+session has NSTART room, with a positive timeout inside the no-wrap range (D7), and — like an arriving RST — not at an
+instant at which a retransmission is due but `coap_io_prepare_io` has not run yet (S fires what is due before anything
+else happens at that instant). -/
+def EvIn (l : L) : Ev → Prop
+  | .setNow t => l.now ≤ t
+  | .prepare => True
+  | .submit s con _ r =>
+    con = true ∧ (l.getS s).conActive < (l.getS s).nstart ∧ NothingDue l ∧
+    0 < calcTimeout (l.getS s).atI (l.getS s).atF (l.getS s).arfI (l.getS s).arfF r ∧
+    calcTimeout (l.getS s).atI (l.getS s).atF (l.getS s).arfI (l.getS s).arfF r * 2 ^ (l.getS s).maxRtx < 2 ^ 64
+  | .rxAck _ _ => True
+  | .rxRst _ _ => NothingDue l
+  | _ => False
+
+/-- `EvIn` threaded along the run of M -/
+def RunIn (l : L) : List Ev → Prop
+  | [] => True
+  | ev :: evs => EvIn l ev ∧ RunIn (Msg.step l ev) evs
+
+theorem rel_emit_none {mx : Nat → Nat} {l : L} {ts : TS} (o : Out) (ho : obsM o = none) (hr : Rel mx l ts) :
+    Rel mx (l.emit o) ts :=
+  ⟨hr.now, hr.pend, by rw [hr.outs]; simp [L.emit, ho]⟩
+
+theorem inv_emit {par : Nat → Sess} {P : Nat → Nat → Nat → Prop} {l : L} (o : Out) (hi : Inv par P l) :
+    Inv par P (l.emit o) := ⟨hi.base, hi.sess, hi.nodes⟩
+
+theorem calcTimeout_mod (a b c d r : Nat) : calcTimeout a b c d r * 2 ^ 0 % 4294967296 = calcTimeout a b c d r := by
+  rw [Nat.pow_zero, Nat.mul_one]; exact Nat.mod_eq_of_lt (calcTimeout_lt a b c d r)
+
+/-- the I/O step that ends `coap_io_do_epoll` -/
+theorem afterRx_sim {par : Nat → Sess} {P : Nat → Nat → Nat → Prop} (hp : ParOk par) (l : L) (ts : TS)
+    (hi : Inv par P l) (hr : Rel (mxOf par) l ts) :
+    Inv par P (afterRx l) ∧ Rel (mxOf par) (afterRx l) (Timer.step ts (.tick l.now)) ∧ NothingDue (afterRx l) := by
+  unfold afterRx
+  rw [prepareCore_fst]
+  exact tick_sim hp l ts hi hr
+
+theorem inv_nodes {par : Nat → Sess} {P : Nat → Nat → Nat → Prop} {l : L} (rest : List Node) (hi : Inv par P l)
+    (h : ∀ x ∈ rest, NodeOk par P x) : Inv par P { l with q := { l.q with nodes := rest } } :=
+  ⟨hi.base, hi.sess, h⟩
+
+/-- the ACK branch of `coap_dispatch` = S's `ack` -/
+theorem rxAck_sim {par : Nat → Sess} {P : Nat → Nat → Nat → Prop} (hp : ParOk par) (l : L) (ts : TS) (s mid : Nat)
+    (hi : Inv par P l) (hr : Rel (mxOf par) l ts) :
+    Inv par P (rxAck l s mid) ∧ Rel (mxOf par) (rxAck l s mid) (Timer.step ts (.ack s mid)) ∧
+    (rxAck l s mid).now = l.now := by
+  obtain ⟨h1, h2, h3, h4⟩ := remove_sim l ts s mid hi hr
+  unfold rxAck
+  simp only [Timer.step]
+  rcases hrm : removeNode l.q.nodes s mid with ⟨sent, rest⟩
+  rcases hpm : premove ts.pend s mid with ⟨ps, pr⟩
+  rw [hrm, hpm] at h1 h2
+  rw [hrm] at h3 h4
+  simp only [] at h1 h2 h3 h4 ⊢
+  have hi1 := inv_nodes rest hi h3
+  cases sent with
+  | none =>
+    have hps : ps = none := h2.1 rfl
+    subst hps
+    have := premove_none ts.pend s mid (by rw [hpm])
+    rw [hpm] at this
+    simp only [] at this
+    subst this
+    exact ⟨hi1, ⟨hr.now, h1, hr.outs⟩, rfl⟩
+  | some n =>
+    cases ps with
+    | none => have := h2.2 rfl; cases this
+    | some x =>
+      simp only []
+      have hrel := release_idle hp { l with q := { l.q with nodes := rest } } s hi1.sess
+      refine ⟨⟨?_, hrel.2.2.2, ?_⟩, ⟨?_, ?_, ?_⟩, hrel.2.2.1⟩
+      · rw [hrel.1, hrel.2.2.1]; exact hi.base
+      · rw [hrel.1]; exact h3
+      · rw [hrel.2.2.1]; exact hr.now
+      · rw [hrel.1]; exact h1
+      · rw [hrel.2.1]
+        have ho := hr.outs
+        simp only [List.filterMap_cons, obsS, ho]
+
+/-- the RST branch of `coap_dispatch` = S's `rst` (S's clock at the current time) -/
+theorem rxRst_sim {par : Nat → Sess} {P : Nat → Nat → Nat → Prop} (hp : ParOk par) (l : L) (ts : TS) (s mid : Nat)
+    (hi : Inv par P l) (hr : Rel (mxOf par) l ts) (hnow : ts.now = l.now) :
+    Inv par P (rxRst l s mid) ∧ Rel (mxOf par) (rxRst l s mid) (Timer.step ts (.rst s mid)) ∧
+    (rxRst l s mid).now = l.now := by
+  obtain ⟨h1, h2, h3, h4⟩ := remove_sim l ts s mid hi hr
+  unfold rxRst
+  simp only [Timer.step]
+  rcases hrm : removeNode l.q.nodes s mid with ⟨sent, rest⟩
+  rcases hpm : premove ts.pend s mid with ⟨ps, pr⟩
+  rw [hrm, hpm] at h1 h2
+  rw [hrm] at h3 h4
+  simp only [] at h1 h2 h3 h4 ⊢
+  have hi1 := inv_nodes rest hi h3
+  cases sent with
+  | none =>
+    have hps : ps = none := h2.1 rfl
+    subst hps
+    have := premove_none ts.pend s mid (by rw [hpm])
+    rw [hpm] at this
+    simp only [] at this
+    subst this
+    exact ⟨inv_emit _ hi1, rel_emit_none _ rfl ⟨hr.now, h1, hr.outs⟩, rfl⟩
+  | some n =>
+    cases ps with
+    | none => have := h2.2 rfl; cases this
+    | some x =>
+      obtain ⟨⟨hcon, _⟩, _, hmid⟩ := h4 n rfl
+      simp only [hcon, if_true]
+      have hrel := release_idle hp { l with q := { l.q with nodes := rest } } s hi1.sess
+      refine ⟨inv_emit _ ⟨?_, hrel.2.2.2, ?_⟩, ⟨?_, ?_, ?_⟩, hrel.2.2.1⟩
+      · rw [hrel.1, hrel.2.2.1]; exact hi.base
+      · rw [hrel.1]; exact h3
+      · show _ ≤ (release _ s).now
+        rw [hrel.2.2.1]; exact hr.now
+      · show _ = absP _ (release _ s).q.base (release _ s).q.nodes
+        rw [hrel.1]; exact h1
+      · show _ = List.filterMap obsM (_ :: (release _ s).out)
+        rw [hrel.2.1, hrel.2.2.1]
+        have ho := hr.outs
+        simp only [List.filterMap_cons, obsS, obsM, ho, hnow, hmid]
+
+/-- **step_sim**: every step of M inside the scope is matched by the S events it stands for -/
+theorem step_sim {par : Nat → Sess} {P : Nat → Nat → Nat → Prop} (hp : ParOk par) (l : L) (ts : TS) (ev : Ev)
+    (hi : Inv par P l) (hr : Rel (mxOf par) l ts) (hok : EvIn l ev)
+    (hP : ∀ s mid r, ev = .submit s true mid r →
+      P s mid (calcTimeout (par s).atI (par s).atF (par s).arfI (par s).arfF r)) :
+    Inv par P (Msg.step l ev) ∧ Rel (mxOf par) (Msg.step l ev) (Timer.run ts (tr l ev)) := by
+  cases ev with
+  | setNow t =>
+    simp only [EvIn] at hok
+    exact ⟨⟨Nat.le_trans hi.base hok, hi.sess, hi.nodes⟩, ⟨Nat.le_trans hr.now hok, hr.pend, hr.outs⟩⟩
+  | prepare =>
+    have := tick_sim hp l ts hi hr
+    simp only [Msg.step, prepare, tr, Timer.run, List.foldl_cons, List.foldl_nil]
+    rcases hpc : prepareCore l with ⟨l', w⟩
+    have e : l' = dueLoop (dueFuel l) l := by rw [← prepareCore_fst, hpc]
+    subst e
+    exact ⟨inv_emit _ this.1, rel_emit_none _ rfl this.2.1⟩
+  | submit s con mid r =>
+    obtain ⟨hcon, hroom, hnd, hT, h64⟩ := hok
+    subst hcon
+    obtain ⟨ca, hca, hle⟩ := hi.sess s
+    obtain ⟨hest, hdq, hopen, hns, h256⟩ := hp s
+    have hso : (l.getS s).sockOpen = true := by rw [hca]; exact hopen
+    have hgt : gate (l.getS s) true = false := by
+      have : ¬ ((l.getS s).conActive ≥ (l.getS s).nstart) := by omega
+      have he : (l.getS s).est = true := by rw [hca]; exact hest
+      simp [gate, he, this]
+    have hM : Msg.step l (.submit s true mid r) =
+        (waitAck ((l.emit (.tx l.now s mid 0 true)).setS s
+            { (l.getS s) with conActive := ((l.getS s).conActive + 1) % 256 })
+          { sess := s, mid := mid, t := 0,
+            timeout := calcTimeout (l.getS s).atI (l.getS s).atF (l.getS s).arfI (l.getS s).arfF r,
+            cnt := 0, tok := mid, con := true }).emit (.sub (some mid)) := by
+      simp only [Msg.step, submit, hso, hgt]
+      simp
+    rw [hM]
+    simp only [tr, Timer.run, List.foldl_cons, List.foldl_nil, tick_idle hr hnd]
+    have hPs := hP s mid r rfl
+    have epar : (calcTimeout (par s).atI (par s).atF (par s).arfI (par s).arfF r) =
+        calcTimeout (l.getS s).atI (l.getS s).atF (l.getS s).arfI (l.getS s).arfF r := by rw [hca]
+    rw [epar] at hPs
+    have emx : (l.getS s).maxRtx = (par s).maxRtx := by rw [hca]
+    have ens : (l.getS s).nstart = (par s).nstart := by rw [hca]
+    have eca : (l.getS s).conActive = ca := by rw [hca]
+    have eset : ({ (l.getS s) with conActive := ((l.getS s).conActive + 1) % 256 } : Sess) =
+        { par s with conActive := (ca + 1) % 256 } := by rw [hca]
+    rw [eset]
+    have hT32 := calcTimeout_mod (l.getS s).atI (l.getS s).atF (l.getS s).arfI (l.getS s).arfF r
+    rw [emx] at h64 ⊢
+    generalize calcTimeout (l.getS s).atI (l.getS s).atF (l.getS s).arfI (l.getS s).arfF r = T at *
+    have hnode : NodeOk par P { sess := s, mid := mid, t := 0, timeout := T, cnt := 0, tok := mid, con := true } :=
+      ⟨rfl, rfl, hT, Nat.zero_le _, h64, hPs⟩
+    have hs2 : SessInv par ((l.emit (.tx l.now s mid 0 true)).setS s { par s with conActive := (ca + 1) % 256 }) :=
+      sessInv_setS (sessInv_congr rfl hi.sess) s _ (by
+        have : (ca + 1) % 256 ≤ ca + 1 := Nat.mod_le _ _
+        omega)
+    refine ⟨inv_emit _ ⟨baseOk_waitAck _ hi.base, sessInv_congr rfl hs2, ?_⟩, rel_emit_none _ rfl ⟨Nat.le_refl _, ?_, ?_⟩⟩
+    · simp only [waitAck, hT32]
+      exact all_enqueue (nodeOk_tfree par P) _ _ _ _ hi.nodes hnode
+    · simp only [Timer.step, waitAck, hT32]
+      rw [pinsert_er, hr.pend]
+      show _ = absP (mxOf par) (enqueue l.q l.now T _).base (enqueue l.q l.now T _).nodes
+      rw [absP_enqueue _ _ _ _ _ (Or.inr hi.base)]
+      rfl
+    · simp only [Timer.step, waitAck]
+      have ho := hr.outs
+      simp only [List.filterMap_cons, obsS, obsM, ho]
+      rfl
+  | rxAck s mid =>
+    obtain ⟨ca, hca, hle⟩ := hi.sess s
+    have hso : (l.getS s).sockOpen = true := by rw [hca]; exact (hp s).2.2.1
+    obtain ⟨hi1, hr1, hn1⟩ := rxAck_sim hp l ts s mid hi hr
+    have := afterRx_sim hp _ _ hi1 hr1
+    rw [hn1] at this
+    simp only [Msg.step, hso, if_true, tr, Timer.run, List.foldl_cons, List.foldl_nil]
+    exact ⟨this.1, this.2.1⟩
+  | rxRst s mid =>
+    obtain ⟨ca, hca, hle⟩ := hi.sess s
+    have hso : (l.getS s).sockOpen = true := by rw [hca]; exact (hp s).2.2.1
+    have hnd : NothingDue l := hok
+    have hr0 : Rel (mxOf par) l { ts with now := l.now } := ⟨Nat.le_refl _, hr.pend, hr.outs⟩
+    obtain ⟨hi1, hr1, hn1⟩ := rxRst_sim hp l _ s mid hi hr0 rfl
+    have := afterRx_sim hp _ _ hi1 hr1
+    rw [hn1] at this
+    simp only [Msg.step, hso, if_true, tr, Timer.run, List.foldl_cons, List.foldl_nil, tick_idle hr hnd]
+    exact ⟨this.1, this.2.1⟩
+  | rxNon s mid tok => exact absurd hok (by simp [EvIn])
+  | rxBad s mid => exact absurd hok (by simp [EvIn])
+  | hold s => exact absurd hok (by simp [EvIn])
+  | connect s => exact absurd hok (by simp [EvIn])
+  | disconnect s => exact absurd hok (by simp [EvIn])
+
 end Coap.Sim
